@@ -1708,6 +1708,8 @@ fn main() {
         // Miri interprets ~1000x slower: its lane passes an absolute case count instead of a scale
         let n = if cfg!(miri) { args.get_u64("miri-cases", 16) } else { args.n(600_000, 12_000_000) };
         par_cases(&mut r, &args, n, |i, r| vt_case(r, seed, i));
+        // leave room for a sample of the other sections
+        r.samples.truncate(3);
     }
 
     #[cfg(not(miri))]
